@@ -242,6 +242,9 @@ template <class S, int N> void test_herm(vh::Rng& r, int mode) {
 template <int N> void test_takagi_real(vh::Rng& r, int mode) {
    typedef Eigen::Matrix<double, N, N> Mat; typedef Eigen::Matrix<cd, N, N> CMat; typedef Eigen::Array<double, N, 1> Arr;
    Mat m = gen_herm<double, N>(r, mode);
+   // the property quantifies over all finite matrices: a quarter of the cases at an absolute scale far from 1 (seed C12-6: an absolute
+   // threshold on the sign of an eigenvalue is invisible while every matrix has entries between 1e-6 and 1e6)
+   if (r.chance(0.25)) m *= std::pow(10.0, r.chance(0.5) ? r.U(-24, -8) : r.U(8, 24));
    const double nrm = m.norm(); const CMat I = CMat::Identity(); const CMat mc = m.template cast<cd>();
    Eigen::Array<LD, N, 1> ref = ref_herm_eigs<double, N>(m);
    const double tol = (N == 3) ? TOL_DIRECT3 : TOL;
